@@ -4,6 +4,8 @@
    the executable model of the current code observes after every operation
    (model) and what the specification demands (spec, computed from
    Spec/StrAnyMapSpec.v on the abstract tree, never from the model).
+   A second class of cases (tag share, further down) starts from several trees
+   and lets nested map objects be shared between them and the caller.
 
    Canonical text.  A value is  n | b0 | b1 | i<kind>:<dec> | s<hex> | y<hex>+<spare cap>
    | m<V|P|Q>{<hexkey>=<value>,...}  (V = map, P = *map, Q = **map; keys sorted
@@ -11,7 +13,7 @@
    zQPM; in OBSERVATIONS a nil holder is printed as the empty map of its form
    (the abstraction of the specification), addresses and origins never. *)
 From Coq Require Import List Arith Bool Ascii String ZArith NArith.
-From Verif Require Import Util Ints StrAnyMap StrAnyMapSpec StrAnyMapAbs.
+From Verif Require Import Util Ints StrAnyMap StrAnyMapSpec StrAnyMapAbs StrAnyMapStore StrAnyMapHeap.
 Import ListNotations.
 Local Open Scope string_scope.
 
@@ -513,6 +515,338 @@ Fixpoint rnd_tree_cases (count : nat) (allow_nil : bool) (stride : nat) (s : rng
     rnd_tree_cases c allow_nil stride s2 (S idx)
   end.
 
+(* ---------- holders sharing map objects ----------
+   A case of this class starts from several trees (holders 0, 1, ...) and runs
+   operations addressed at one holder each; Get and Copy append what they return
+   as a new holder, Set can store what a holder holds (the same map object, as
+   Go does), so nested maps become shared between trees and the caller.  After
+   EVERY operation EVERY holder is dumped: an operation addressed at one map
+   object must not change what holders that do not reach this object see.
+   Input:  #<value>#<value>...;op;op...   with
+     g!i!path  (holder := Get(h[i], path))      s!i!path!h<j> | s!i!path!<value>  (Set(h[i], h[j] | value, path))
+     l!i!path  (Length)    r!i  (Reset)         y!i  (holder := Copy(h[i]))       t!i!j  (CopyTo(h[i], h[j]))
+     w!i!<V|P|Q>  (holder := the map h[i] holds, held in the given form - built by the harness)
+   Observation per step:  <result>;<dump of holder 0>;<dump of holder 1>;...   a dump that is the same text
+   as after the previous step is written "=" (by the harness and by both columns, each from its own dumps).
+   The model column runs Model/StrAnyMapHeap.v, the spec column Spec/StrAnyMapStore.v. *)
+Inductive hop :=
+| HGet (i : nat) (p : list string)
+| HSetH (i j : nat) (p : list string)
+| HSetV (i : nat) (p : list string) (v : any)
+| HLen (i : nat) (p : list string)
+| HReset (i : nat)
+| HCopy (i : nat)
+| HCopyTo (i j : nat)
+| HWrap (i : nat) (f : form).
+
+Definition pr_hop (o : hop) : string :=
+  match o with
+  | HGet i p => "g!" ++ nat_to_string i ++ "!" ++ pr_path p
+  | HSetH i j p => "s!" ++ nat_to_string i ++ "!" ++ pr_path p ++ "!h" ++ nat_to_string j
+  | HSetV i p v => "s!" ++ nat_to_string i ++ "!" ++ pr_path p ++ "!" ++ pr_in v
+  | HLen i p => "l!" ++ nat_to_string i ++ "!" ++ pr_path p
+  | HReset i => "r!" ++ nat_to_string i
+  | HCopy i => "y!" ++ nat_to_string i
+  | HCopyTo i j => "t!" ++ nat_to_string i ++ "!" ++ nat_to_string j
+  | HWrap i f => "w!" ++ nat_to_string i ++ "!" ++ form_tag f
+  end.
+
+Definition hstate := (store * list snode)%type.
+Definition holder (hs : list snode) (i : nat) : snode := nth i hs (SLeaf LNil).
+Definition pr_view (st : store) (x : snode) : string := pr_tree (view (view_fuel st) st x).
+Definition pr_holders (st : store) (hs : list snode) : string := join ";" (map (pr_view st) hs).
+Definition pr_got (st : store) (y : snode) : string :=
+  match y with SLeaf LNil => "none" | _ => "v=" ++ pr_view st y end.
+Definition rewrap (x : snode) (f : form) : snode :=
+  match x with SMap _ m => SMap (hold_of f) m | SLeaf _ => SLeaf LNil end.
+
+(* the trees of the input as fresh objects (construction, shared by both columns) *)
+Fixpoint load_all (st : store) (xs : list any) : hstate :=
+  match xs with
+  | [] => (st, [])
+  | x :: r => let '(st1, n) := mat st (abs x) in let '(st2, ns) := load_all st1 r in (st2, n :: ns)
+  end.
+
+(* a step yields the next state and the operation's own result; the dump of
+   every holder is appended when the trace is printed: in full when it differs
+   from the holder's dump after the previous step (or the holder is new), as "="
+   when it is the same text.  The operations that only read leave the store as
+   it is, so the dumps after them are the previous ones. *)
+Definition with_dump (s : hstate) (r : string) : hstate * string := (s, r).
+
+Definition is_read (o : hop) : bool :=
+  match o with HGet _ _ | HLen _ _ | HWrap _ _ => true | _ => false end.
+
+Definition next_dumps (o : hop) (s' : hstate) (prev : list string) : list string :=
+  let '(st, hs) := s' in
+  if is_read o then (prev ++ map (pr_view st) (skipn (List.length prev) hs))%list
+  else map (pr_view st) hs.
+
+Fixpoint mark_same (prev cur : list string) : list string :=
+  match cur with
+  | [] => []
+  | c :: cr =>
+    match prev with
+    | p :: pr => (if String.eqb p c then "=" else c) :: mark_same pr cr
+    | [] => c :: mark_same [] cr
+    end
+  end.
+
+Fixpoint htrace (step : hstate -> hop -> hstate * string) (s : hstate) (prev : list string) (ops : list hop)
+  : list string :=
+  match ops with
+  | [] => []
+  | o :: r =>
+    let sr := step s o in
+    let cur := next_dumps o (fst sr) prev in
+    (if String.eqb (snd sr) "*" then "*" else snd sr ++ ";" ++ join ";" (mark_same prev cur))
+    :: htrace step (fst sr) cur r
+  end.
+
+(* ---------- model: the Go statements on the heap ---------- *)
+Definition hmodel_step (s : hstate) (o : hop) : hstate * string :=
+  let '(st, hs) := s in
+  match o with
+  | HGet i p =>
+    match h_get st p (holder hs i) with
+    | Ok (Some y) => with_dump (st, (hs ++ [y])%list) (pr_got st y)
+    | Ok None => with_dump (st, (hs ++ [SLeaf LNil])%list) "none"
+    | Err e => with_dump (st, (hs ++ [SLeaf LNil])%list) (err_name e)
+    | Panic _ => with_dump (st, (hs ++ [SLeaf LNil])%list) "PANIC:nilderef"
+    end
+  | HSetH i j p =>
+    let '(st', r) := h_set st p (holder hs i) (holder hs j) in with_dump (st', hs) (pr_status r)
+  | HSetV i p v =>
+    let '(st0, n) := mat st (abs v) in
+    let '(st', r) := h_set st0 p (holder hs i) n in with_dump (st', hs) (pr_status r)
+  | HLen i p => with_dump s (pr_optz (h_length st p (holder hs i)))
+  | HReset i => let '(st', r) := h_reset st (holder hs i) in with_dump (st', hs) (pr_status r)
+  | HCopy i => let '(st', c, r) := h_copy st (holder hs i) in with_dump (st', (hs ++ [c])%list) (pr_status r)
+  | HCopyTo i j => let '(st', r) := h_copy_to st (holder hs i) (holder hs j) in with_dump (st', hs) (pr_status r)
+  | HWrap i f => with_dump (st, (hs ++ [rewrap (holder hs i) f])%list) "w"
+  end.
+
+(* ---------- specification: Spec/StrAnyMapStore.v ---------- *)
+Definition hspec_set (st : store) (hs : list snode) (x : snode) (p : list string) (v : snode) : hstate * string :=
+  match p with
+  | [] => ((st, hs), "*")
+  | _ :: _ =>
+    match s_set st x p (sstored v) with
+    | SSetOk st' => with_dump (st', hs) "ok"
+    | SSetNonMap => with_dump (st, hs) "err:unsupported"
+    end
+  end.
+
+Definition hspec_step (s : hstate) (o : hop) : hstate * string :=
+  let '(st, hs) := s in
+  match o with
+  | HGet i p =>
+    match s_nav st (holder hs i) p with
+    | SFound y => with_dump (st, (hs ++ [y])%list) (pr_got st y)
+    | SAbsent => with_dump (st, (hs ++ [SLeaf LNil])%list) "none"
+    | SNonMap => with_dump (st, (hs ++ [SLeaf LNil])%list) "err:unsupported"
+    end
+  | HSetH i j p => hspec_set st hs (holder hs i) p (holder hs j)
+  | HSetV i p v => let '(st0, n) := mat st (abs v) in hspec_set st0 hs (holder hs i) p n
+  | HLen i p =>
+    match s_nav st (holder hs i) p with
+    | SFound y => with_dump s (pr_someZ (tlen (view (view_fuel st) st y)))
+    | SAbsent => with_dump s "none"
+    | SNonMap => with_dump s "err:unsupported"
+    end
+  | HReset i =>
+    match holder hs i with
+    | SMap _ _ => with_dump (s_reset st (holder hs i), hs) "ok"
+    | SLeaf _ => (s, "*")
+    end
+  | HCopy i =>
+    match holder hs i with
+    | SMap _ _ => let '(st', c) := s_copy st (holder hs i) in with_dump (st', (hs ++ [c])%list) "ok"
+    | SLeaf _ => (s, "*")
+    end
+  | HCopyTo i j =>
+    match holder hs i, holder hs j with
+    | SMap _ _, SMap HVal _ => (s, "*")
+    | SMap _ _, SMap _ md =>
+      (* a destination that is part of the source is outside the property's text *)
+      if reaches (view_fuel st) st (holder hs i) md then (s, "*")
+      else with_dump (s_copy_to st (holder hs i) md, hs) "ok"
+    | _, _ => (s, "*")
+    end
+  | HWrap i f => with_dump (st, (hs ++ [rewrap (holder hs i) f])%list) "w"
+  end.
+
+Definition hcase_line (id tags : string) (xs : list any) (ops : list hop) : string :=
+  let s0 := load_all [] xs in
+  id ++ tab ++ tags ++ tab ++
+  concat "" (map (fun x => "#" ++ pr_in x) xs) ++ ";" ++ join ";" (map pr_hop ops) ++ tab ++
+  join "|" (htrace hmodel_step s0 [] ops) ++ tab ++
+  spec_text (htrace hspec_step s0 [] ops).
+
+(* ---------- enumerated sharing scenarios ---------- *)
+(* non-empty paths of x that lead to a nested map *)
+Definition map_paths (x : any) : list (list string) :=
+  filter (fun p : list string =>
+            match p with
+            | [] => false
+            | _ => match tnav (abs x) p with NFound (TMap _ _) => true | _ => false end
+            end) (node_paths 6 x).
+
+Definition other_tree (f1 f2 : form) : any :=
+  M_ f1 [("x", I_ 1); ("sub", M_ f2 [("y", S_ "b"); ("yy", Y_ "bb" 2)])].
+
+Definition share_sources : list any :=
+  flat_map (fun f1 => map (fun f2 => M_ f1 [("a", M_ f2 [("b", I_ 15); ("s", S_ "text"); ("y", Y_ "bytes" 3)]); ("b", ANil)]) forms) forms ++
+  [testm FVal FVal FPtr; testm FPtr FPtr2 FVal; testm FPtr2 FVal FPtr2] ++
+  map deep4 forms.
+
+Definition nth_form (i : nat) : form := nth (Nat.modulo i 3) forms FVal.
+
+(* holders: 0 = the source tree a, 1 = another tree b, 2 = the nested map of a at pa *)
+Definition share_scenarios (i : nat) (pa : list string) : list (string * list hop) :=
+  let f := nth_form i in
+  [ (* the nested map moved into b, then the source is reset / written / the moved map reset *)
+    ("moved-reset-source",
+     [HGet 0 pa; HSetH 1 2 ["moved"]; HReset 0; HLen 1 ["moved"]; HGet 1 ["moved"];
+      HSetV 0 ["k"] (S_ "after"); HReset 2]);
+    (* ... below a created chain in b, then b is reset; the source still holds it *)
+    ("moved-reset-other",
+     [HGet 0 pa; HSetH 1 2 ["sub"; "moved"]; HReset 1; HLen 0 pa; HSetV 2 ["n"] (I_ 7);
+      HCopy 0; HReset 0; HSetV 2 ["n2"] (Y_ "zz" 1)]);
+    (* writes through either tree land in the one shared object, copies are detached *)
+    ("moved-set-copyto",
+     [HGet 0 pa; HSetH 1 2 ["new"; "deep"]; HSetV 1 ["new"; "deep"; "leaf"] (S_ "via b");
+      HSetV 0 (pa ++ ["zz"])%list (I_ 9); HWrap 1 FPtr; HCopyTo 0 3; HReset 0; HLen 2 []; HReset 3]);
+    (* the nested map held directly by the caller, in its own and in another form *)
+    ("held-reset",
+     [HGet 0 pa; HWrap 2 f; HReset 0; HLen 2 []; HLen 3 []; HSetV 3 ["k"] (S_ "kept"); HReset 3;
+      HSetH 0 2 ["back"]]);
+    (* a copy, then resets and writes on both sides *)
+    ("copy-detached",
+     [HCopy 0; HGet 2 pa; HReset 0; HSetV 3 ["c"] (I_ 3); HSetH 0 3 ["from-copy"]; HReset 2; HLen 0 ["from-copy"]]);
+    (* CopyTo over a tree whose old nested map is still held *)
+    ("copyto-over-held",
+     [HGet 1 ["sub"]; HWrap 1 FPtr2; HCopyTo 0 3; HLen 2 []; HGet 1 pa; HReset 4; HLen 0 pa; HReset 0]) ].
+
+Definition share_cases : list string :=
+  flat_map (fun ia : nat * any =>
+    let '(i, a) := ia in
+    flat_map (fun jp : nat * list string =>
+      let '(j, pa) := jp in
+      let b := other_tree (nth_form (i + j)) (nth_form (i + j + j + 1)) in
+      map (fun sc : string * list hop =>
+             hcase_line ("sh" ++ nat_to_string i ++ "_" ++ nat_to_string j ++ "_" ++ fst sc)
+                        ("share," ++ fst sc ++ "," ++ base_tags a) [a; b] (snd sc))
+          (share_scenarios (i + j) pa))
+      (number 0 (map_paths a)))
+    (number 0 share_sources).
+
+(* ---------- random histories over holders ---------- *)
+Fixpoint tnode_paths (fuel : nat) (t : tree) : list (list string) :=
+  match fuel with
+  | O => [[]]
+  | S f =>
+    [] :: match t with
+          | TMap _ es => flat_map (fun kv => map (cons (fst kv)) (tnode_paths f (snd kv))) es
+          | TLeaf _ => []
+          end
+  end.
+
+Definition is_smap (x : snode) : bool := match x with SMap _ _ => true | SLeaf _ => false end.
+
+Definition rnd_hpath (st : store) (x : snode) (extend : bool) (s : rng) : list string * rng :=
+  let '(p, s1) := pick_list s [] (tnode_paths 5 (view (view_fuel st) st x)) in
+  if extend then
+    let '(c, s2) := rng_nat s1 4 in
+    let '(k, s3) := pick_list s2 "a" key_pool in
+    match c with
+    | 0 => ((p ++ [k; "n2"])%list, s3)
+    | _ => ((p ++ [k])%list, s3)
+    end
+  else (p, s1).
+
+(* the spec is silent about it, or it would tie a cycle: not generated.  Only a
+   Set of what a holder holds can tie one - when the object it writes is
+   reachable from the value (a new cycle has to pass the new entry). *)
+Definition hop_ok (s : hstate) (o : hop) : bool :=
+  let '(st, hs) := s in
+  match o with
+  | HSetH i j p =>
+    match p with
+    | [] => false
+    | _ => match s_target st (holder hs i) p with
+           | Some a => negb (reaches (view_fuel st) st (holder hs j) a)
+           | None => true
+           end
+    end
+  | HSetV i p _ => match p with [] => false | _ => true end
+  | HReset i | HCopy i => is_smap (holder hs i)
+  | HCopyTo i j =>
+    match holder hs i, holder hs j with
+    | SMap _ _, SMap HVal _ => false
+    | SMap _ _, SMap _ md => negb (reaches (view_fuel st) st (holder hs i) md)
+    | _, _ => false
+    end
+  | _ => true
+  end.
+
+Definition rnd_hop (s : hstate) (g : rng) : hop * rng :=
+  let '(st, hs) := s in
+  let n := List.length hs in
+  let '(c, g1) := rng_nat g 16 in
+  let '(i, g2) := rng_nat g1 n in
+  let '(j, g3) := rng_nat g2 n in
+  match c with
+  | 0 | 1 | 2 => let '(p, g4) := rnd_hpath st (holder hs i) false g3 in (HGet i p, g4)
+  | 3 | 4 | 5 => let '(p, g4) := rnd_hpath st (holder hs i) true g3 in (HSetH i j p, g4)
+  | 6 | 7 => let '(p, g4) := rnd_hpath st (holder hs i) true g3 in
+             let '(v, g5) := pick_list g4 ANil set_values in (HSetV i p v, g5)
+  | 8 => let '(p, g4) := rnd_hpath st (holder hs i) false g3 in (HLen i p, g4)
+  | 9 | 10 => (HReset i, g3)
+  | 11 => (HCopy i, g3)
+  | 12 | 13 => (HCopyTo i j, g3)
+  | 14 => let '(f, g4) := pick_list g3 FPtr forms in (HWrap i f, g4)
+  | _ => let '(p, g4) := rnd_hpath st (holder hs i) true g3 in (HLen i p, g4)
+  end.
+
+Fixpoint rnd_hhist (len : nat) (s : hstate) (g : rng) : list hop * rng :=
+  match len with
+  | O => ([], g)
+  | S l =>
+    let '(o0, g1) := rnd_hop s g in
+    let o := if hop_ok s o0 then o0 else HLen 0 [] in
+    let '(s', _) := hmodel_step s o in
+    let '(r, g2) := rnd_hhist l s' g1 in
+    (o :: r, g2)
+  end.
+
+Fixpoint rnd_share_hists (count : nat) (tags : string) (xs : list any) (g : rng) (id : string) (k : nat)
+  : list string * rng :=
+  match count with
+  | O => ([], g)
+  | S c =>
+    let '(len, g1) := rng_nat g 6 in
+    let '(ops, g2) := rnd_hhist (3 + len) (load_all [] xs) g1 in
+    let '(r, g3) := rnd_share_hists c tags xs g2 id (S k) in
+    (hcase_line (id ++ "_" ++ nat_to_string k) tags xs ops :: r, g3)
+  end.
+
+(* per group: two histories over a pair of random trees, two over a pair of the enumerated ones
+   (drawing a random tree costs as much as several histories) *)
+Fixpoint rnd_share_cases (groups : nat) (g : rng) (idx : nat) : list string :=
+  match groups with
+  | O => []
+  | S c =>
+    let '(d, g1) := rng_nat g 2 in
+    let '(a, g2) := rnd_root (S d) false g1 in
+    let '(b, g3) := rnd_root d false g2 in
+    let '(l1, g4) := rnd_share_hists 2 ("share,hist," ++ base_tags a) [a; b] g3 ("sr" ++ nat_to_string idx) 0 in
+    let a2 := nth (Nat.modulo idx (List.length share_sources)) share_sources (M_ FVal []) in
+    let b2 := other_tree (nth_form idx) (nth_form (Nat.div idx 3)) in
+    let '(l2, g5) := rnd_share_hists 2 ("share,hist," ++ base_tags a2) [a2; b2] g4 ("se" ++ nat_to_string idx) 0 in
+    (l1 ++ l2 ++ rnd_share_cases c g5 (S idx))%list
+  end.
+
 (* tier 0 = quick, 1 = thorough *)
 Definition cases (tier : Z) (seed : Z) : list string :=
   let quick := Z.eqb tier 0 in
@@ -523,4 +857,6 @@ Definition cases (tier : Z) (seed : Z) : list string :=
            (number 0 nil_trees) ++
   rnd_tree_cases (if quick then 25 else 250) false (if quick then 5 else 2) s0 0 ++
   rnd_tree_cases (if quick then 8 else 80) true (if quick then 5 else 2) (rng_next (rng_next s0)) 0 ++
-  rnd_hist_cases (if quick then 400 else 60 * 100) (rng_next s0) 0.
+  rnd_hist_cases (if quick then 400 else 60 * 100) (rng_next s0) 0 ++
+  share_cases ++
+  rnd_share_cases (if quick then 45 else 10 * 100) (rng_next (rng_next (rng_next s0))) 0.
